@@ -6,7 +6,7 @@ Extraction Blacklist String List Bool.
 
 Separate Extraction
   TableDef.is_none TableDef.rows_for
-  TTable.states TTable.events TTable.actions TTable.guards TTable.actionsignatures TTable.src_states TTable.events_of
+  TTable.states TTable.events TTable.actions TTable.guards TTable.actionsignatures TTable.tps_states TTable.events_of
   TTable.trans_of TTable.getfirststate TTable.wf_table
   TableInterp.table_interp
   PySM.gen_py PySM.parse_indent PySM.run_py PySM.code_lines.
